@@ -109,7 +109,9 @@ func (n *simNet) addPeer(ps simPeerSpec) (*simSpeaker, error) {
 	if err := n.s.AddPeer(context.Background(), &api.AddPeerRequest{Peer: ps.apiPeer()}); err != nil {
 		return nil, err
 	}
-	return n.newSpeaker(ps.speakerConf()), nil
+	sp := n.newSpeaker(ps.speakerConf())
+	sp.overMax = int(ps.SendMax) // receiver-side note of paths that arrive beyond send-max
+	return sp, nil
 }
 
 // bringUp connects the speaker, retrying (virtual seconds) while gobgp sits in Idle.
